@@ -60,7 +60,9 @@ impl DbCfg {
             .min_sync_bytes(self.min_sync_bytes)
             .max_batch_size(self.max_batch)
             .cache_capacity_bytes(self.cache_bytes);
-        b.open(dir).map_err(|e| format!("open failed: {e}"))
+        let db = b.open(dir).map_err(|e| format!("open failed: {e}"))?;
+        OPEN_DBS.lock().unwrap().push(db.clone());
+        Ok(db)
     }
 }
 
@@ -124,6 +126,16 @@ pub fn class_of(e: &WriteError) -> &'static str {
         WriteError::Validation(EventValidationError::PartitionKeyMismatch { .. }) => "key_mismatch",
         WriteError::EventsExceedSegmentSize => "too_large",
         _ => "other",
+    }
+}
+
+/// every database opened by this process, so that a failed run can still be shut down
+pub static OPEN_DBS: std::sync::Mutex<Vec<Database>> = std::sync::Mutex::new(Vec::new());
+
+pub async fn shutdown_all() {
+    let dbs: Vec<Database> = std::mem::take(&mut *OPEN_DBS.lock().unwrap());
+    for db in dbs {
+        db.shutdown().await;
     }
 }
 
